@@ -1,12 +1,34 @@
 # C04 — HLL union equals the sketch of the concatenated streams at reduced precision
 #
-# Mutations / harmless rewrites confirmed in a scratch worktree (VERIF_REPO): see the list at the end of this comment
-# block (filled in after the mutation runs).
+# The model is the REPAIRED union (fixes/04_union_downsample_rebuild.patch, fixes/04_union_reset_lgk.patch); against the
+# unrepaired tree this check reports VIOLATION (input_lost / union_emptiness for F1, lgk_not_min_after_reset / order_dependent
+# for F10).  The shipped behaviour is kept as HllUnionDefs.shipped and refuted in coq/Regression_hllunion.v.
+#
+# Mutations confirmed caught (scratch worktree with both patches applied, VERIF_REPO, quick tier, seed 1; each VIOLATION):
+#   M1  Hll8Array::mergeHll masks with the SOURCE mask ((1 << src.getLgConfigK()) - 1)          -> ASan heap overflow, crash report   [DESIGN s9]
+#   M2  mergeHll does not set the rebuild flag                                                    -> union_emptiness / result_emptiness  [DESIGN s9]
+#   M3  union_impl: down-sample comparison reversed (src lg_k > gadget lg_k)                       -> lgk_not_min, input_lost
+#   M5  swap case (list gadget, HLL source) forgets mergeList                                     -> input_lost
+#   M6  list source replaces an empty gadget of a different lg_k (lg_k test dropped)              -> lgk_not_min
+#   M8  processValue assigns instead of max                                                       -> input_lost
+#   M9  HLL_6 decoder of the down-sampling loop drops a bit (& 0x0f -> & 0x07)                    -> input_lost
+#   M11 get_result ignores the target type                                                        -> result_type
+#   M12 copy_or_downsample: src_lg_k <= tgt  ->  >=  (keeps the source's larger lg_k)              -> lgk_not_min
+#   M13 rvalue shortcut taken although sketch lg_k > lg_max_k (bound dropped)                     -> lgk_not_min
+#   (and removing either repair: F1 -> input_lost / union_emptiness, F10 -> lgk_not_min_after_reset / order_dependent)
+# Behaviour-preserving changes confirmed NOT reported:
+#   H1  eager instead of deferred rebuild (check_rebuild_kxq_cur_min at the end of mergeHll)                              [DESIGN s9]
+#   H2  independent statements of union_impl reordered (putHipAccum / putOutOfOrderFlag)                                  [DESIGN s9]
+#   H3  down-sample comparison < -> <= (DESIGN s9 lists it as breaking; it only adds a copy of the gadget at equal lg_k)
+#   H4  rvalue update without the swap (gadget_ = std::move(sketch) removed: the && overload then behaves like const&)
+#   M4  rvalue shortcut taken when the gadget is NOT empty (DESIGN s9 lists it as breaking): union_impl then merges the
+#       swapped-out gadget as the source, so lg_k, registers, emptiness and the out-of-order flag are unchanged — an
+#       equivalent mutant for everything C04 observes.
 import struct
 
 PROP = "C04"
 READY = False
-COQ_PROPS = ['Properties_C04']
+COQ_PROPS = ['Properties_C04', 'Properties_C04_result']
 RULE = ('operation scripts over hll_sketch registers and hll_union registers: input sketches of lg_k 4..10 (thorough ..12), the three '
         'target types, every mode (empty list, empty start_full_size HLL, list, set, HLL by promotion, HLL by start_full_size, results '
         'of another union incl. out-of-order ones), built from raw coupons (values 1..63, some >= 32) or real int64 items; unions of '
@@ -356,4 +378,26 @@ def oracle(case, irecs, mrecs):
 
 FAMILIES = [dict(name='hllunion', harness='drv_hllunion.cpp', extract='Extract_hllunion.v', model='model_hllunion', gen=gen, oracle=oracle)]
 
-MANIFEST = dict(level_text='TODO', level_note='TODO', design_ref='DESIGN.md section 5 C04')
+MANIFEST = dict(
+    level_text=('Theorems (coq/Properties_C04.v, Properties_C04_result.v; axiom-free) about the executable model of the REPAIRED hll_union, for ALL histories '
+                '(induction over arbitrary lists of: sketch inputs in any mode / target type / lg_k by const& or &&, raw items, estimate calls, get_result '
+                'calls, resets) and every lg_max_k 4..21: the run never throws; lg_k(gadget) = min(lg_max_k, lg_k of the non-empty HLL-mode inputs since the '
+                'last reset) [C04_union_spec, C04_lg_star_is_min]; the registers are exactly the per-slot max of every coupon offered, folded to that lg_k, and in '
+                'coupon mode the gadget holds exactly the set of coupons offered; empty iff nothing was offered; order independence [C04_union_perm]; independence of '
+                'interleaved estimate/get_result calls and of lvalue/rvalue update [C04_union_interleaving]; nothing offered is lost [C04_nothing_lost]; '
+                'get_result(HLL_4/6/8) is defined, has that lg_k, type and content and is again an admissible input [C04_get_result_any_type]; the register algebra '
+                'of mergeHll (masked fold = per-slot max at the smaller lg_k: C04_downsample_spec, C04_downsample_merge_spec, C04_equal_k_merge_spec); the gadget as a '
+                'sketch through list -> set -> HLL_8 incl. open-addressing growth [C04_gadget_coupon_update]. Inputs are only assumed to satisfy the hll_sketch '
+                'invariant, which C03 proves for every sketch built by updates [C04_all_built_inputs_admissible]. The shipped code is refuted by theorem '
+                '(Regression_hllunion.v: union_refuted = F1, reset_refuted / value_category_refuted = F10). The same definitions are extracted and run against '
+                'hll_union on every check (lg_k, type, mode, emptiness, out-of-order flag, zero-register count as the estimators read it, registers / sorted coupons of '
+                'get_result(type) and the union accessors compared exactly), and the property predicates are evaluated on the implementation outputs against the '
+                'specification values computed by the Coq spec.'),
+    level_note=('Proved for the model, not for the C++: the model is hand-written and validated only by the correspondence runs (lg_k 4..10 quick / ..12 thorough, <= 5 inputs). '
+                'Needs fixes/04_union_downsample_rebuild.patch and fixes/04_union_reset_lgk.patch in /repo; the unrepaired tree is reported as VIOLATION. '
+                'Reading of the statement: empty inputs (incl. an empty start_full_size sketch, which is in HLL mode) are skipped by update() and do not lower lg_k; reset() '
+                'starts a new history. Not modelled / not claimed: hipAccum, kxq and all estimates and bounds (floating point; kxq after a rebuild is carried exactly in the '
+                'model but never observed; estimates are only requested, to trigger the deferred rebuild); deserialised inputs; allocator behaviour. Input sketches of type '
+                'HLL_4/HLL_6 rely on the C03 proofs (HllSketchProofs.v) for the admissibility hypothesis. Trusted: Coq kernel, extraction, OCaml, g++/ASan, the '
+                'private-access macro in the harness (raw coupons enter through the gadget\'s coupon_update because hll_union::coupon_update, private and unused, does not compile).'),
+    design_ref='DESIGN.md section 5 C04, section 4.2 F1 and F10')
